@@ -211,9 +211,11 @@ var lineBreaksReplacer = strings.NewReplacer("\r\n", " ", "\n", " ", "\r", " ", 
 
 // replaceLineBreaks replaces all line breaks in the string with white spaces. It is used for embedding an error
 // message from libraries in a message of Error since the message must be in one line. Escape characters are also
-// replaced since escape sequences at the end of line are removed by the problem matcher.
+// replaced since escape sequences at the end of line are removed by the problem matcher. Invalid UTF-8 sequences are
+// replaced with U+FFFD because libraries may cut a string in the middle of a character and such a message cannot be
+// encoded into JSON as-is.
 func replaceLineBreaks(s string) string {
-	return lineBreaksReplacer.Replace(s)
+	return strings.ToValidUTF8(lineBreaksReplacer.Replace(s), "\uFFFD")
 }
 
 // ByErrorPosition is predicate for sort.Interface. It sorts errors slice by file path, line, and
